@@ -18,48 +18,50 @@ import (
 
 // Case is one listed certificate in one configuration.
 type Case struct {
-	N         int         `json:"n"`          // number of entries
-	Pos       int         `json:"pos"`        // position of the listed entry (0..N-1)
-	Listed    gen.Entry   `json:"listed"`     // the listed entry (serial, date form, extensions)
-	Filler    []gen.Entry `json:"filler"`     // template entries cycled for the rest
-	PEM       string      `json:"pem"`        // "" | lf | crlf
-	V1        bool        `json:"v1"`         // version 1 CRL (no extensions at all)
-	CAKey     string      `json:"ca_key"`
-	Alg       string      `json:"alg"`
-	Depth     int         `json:"depth"`
-	Source    string      `json:"source"`     // crl_file | crl_url | cdp | cdp-of-other-leaf
-	LeafCDP   string      `json:"leaf_cdp"`   // for configured sources: none | ldap-only | 404 | garbage (the certificate's OWN distribution point)
-	Disk      bool        `json:"disk"`
-	Mode      string      `json:"mode"`       // "" | prefer_ocsp | prefer_crl | crl_only
-	OCSP      string      `json:"ocsp"`       // none | good | unknown | unavailable
-	Sig       string      `json:"sig"`        // "" | verify | verify_log | none
-	Signer    string      `json:"signer"`     // ca | sibling (only with verify_log / none)
-	Strict    bool        `json:"strict"`
-	Distract  int         `json:"distract"`   // distractor CRLs of other issuers (configured files)
-	Background bool       `json:"background"`
+	N           int         `json:"n"`      // number of entries
+	Pos         int         `json:"pos"`    // position of the listed entry (0..N-1)
+	Listed      gen.Entry   `json:"listed"` // the listed entry (serial, date form, extensions)
+	Filler      []gen.Entry `json:"filler"` // template entries cycled for the rest
+	PEM         string      `json:"pem"`    // "" | lf | crlf
+	V1          bool        `json:"v1"`     // version 1 CRL (no extensions at all)
+	CAKey       string      `json:"ca_key"`
+	Alg         string      `json:"alg"`
+	Depth       int         `json:"depth"`
+	Source      string      `json:"source"`       // crl_file | crl_url | crl_url-query-twin | cdp | cdp-of-other-leaf
+	IssuerShape string      `json:"issuer_shape"` // cn | dc | email | cnfirst | multiou: shape of the issuing CA's name
+	LeafCDP     string      `json:"leaf_cdp"`     // for configured sources: none | ldap-only | 404 | garbage (the certificate's OWN distribution point)
+	Disk        bool        `json:"disk"`
+	Mode        string      `json:"mode"`   // "" | prefer_ocsp | prefer_crl | crl_only
+	OCSP        string      `json:"ocsp"`   // none | good | unknown | unavailable
+	Sig         string      `json:"sig"`    // "" | verify | verify_log | none
+	Signer      string      `json:"signer"` // ca | sibling (only with verify_log / none)
+	Strict      bool        `json:"strict"`
+	Distract    int         `json:"distract"` // distractor CRLs of other issuers (configured files)
+	Background  bool        `json:"background"`
 }
 
 func genCase(t *rapid.T) Case {
 	c := Case{
-		PEM:      rapid.SampledFrom([]string{"", "", "lf", "crlf"}).Draw(t, "pem"),
-		V1:       rapid.IntRange(0, 4).Draw(t, "v1") == 0,
-		CAKey:    rapid.SampledFrom(gen.AllCertKeys).Draw(t, "cakey"),
-		Depth:    rapid.IntRange(1, 2).Draw(t, "depth"),
-		Source:   rapid.SampledFrom([]string{"crl_file", "crl_url", "cdp", "cdp", "cdp-of-other-leaf"}).Draw(t, "source"),
-		Disk:     rapid.Bool().Draw(t, "disk"),
-		Mode:     rapid.SampledFrom([]string{"", "prefer_ocsp", "prefer_crl", "crl_only"}).Draw(t, "mode"),
-		OCSP:     rapid.SampledFrom([]string{"none", "none", "good", "unknown", "unavailable"}).Draw(t, "ocsp"),
-		Sig:      rapid.SampledFrom([]string{"", "verify", "verify", "verify_log", "none"}).Draw(t, "sig"),
-		Signer:   "ca",
-		Strict:   rapid.Bool().Draw(t, "strict"),
-		Distract: rapid.IntRange(0, 2).Draw(t, "distract"),
-		Background: rapid.IntRange(0, 4).Draw(t, "bg") == 0,
+		PEM:         rapid.SampledFrom([]string{"", "", "lf", "crlf"}).Draw(t, "pem"),
+		V1:          rapid.IntRange(0, 4).Draw(t, "v1") == 0,
+		CAKey:       rapid.SampledFrom(gen.AllCertKeys).Draw(t, "cakey"),
+		Depth:       rapid.IntRange(1, 2).Draw(t, "depth"),
+		Source:      rapid.SampledFrom([]string{"crl_file", "crl_url", "crl_url-query-twin", "cdp", "cdp", "cdp-of-other-leaf"}).Draw(t, "source"),
+		IssuerShape: rapid.SampledFrom([]string{"cn", "cn", "dc", "email", "cnfirst", "multiou"}).Draw(t, "issuershape"),
+		Disk:        rapid.Bool().Draw(t, "disk"),
+		Mode:        rapid.SampledFrom([]string{"", "prefer_ocsp", "prefer_crl", "crl_only"}).Draw(t, "mode"),
+		OCSP:        rapid.SampledFrom([]string{"none", "none", "good", "unknown", "unavailable"}).Draw(t, "ocsp"),
+		Sig:         rapid.SampledFrom([]string{"", "verify", "verify", "verify_log", "none"}).Draw(t, "sig"),
+		Signer:      "ca",
+		Strict:      rapid.Bool().Draw(t, "strict"),
+		Distract:    rapid.IntRange(0, 2).Draw(t, "distract"),
+		Background:  rapid.IntRange(0, 4).Draw(t, "bg") == 0,
 	}
 	c.Alg = rapid.SampledFrom(gen.CompatibleAlgs(gen.K(c.CAKey))).Draw(t, "alg")
 	if (c.Sig == "verify_log" || c.Sig == "none") && rapid.Bool().Draw(t, "sibling") {
 		c.Signer = "sibling"
 	}
-	if c.Source == "crl_file" || c.Source == "crl_url" {
+	if c.Source == "crl_file" || c.Source == "crl_url" || c.Source == "crl_url-query-twin" {
 		c.LeafCDP = rapid.SampledFrom([]string{"none", "none", "ldap-only", "404", "garbage"}).Draw(t, "leafcdp")
 	}
 	switch rapid.IntRange(0, 9).Draw(t, "nclass") {
@@ -117,9 +119,24 @@ func runCase(c Case, x *ev.Ctx) error {
 	defer os.RemoveAll(dir)
 	wd := filepath.Join(dir, "work")
 	os.MkdirAll(wd, 0o755)
+	// legal issuer names of several shapes (Active Directory style DC components, emailAddress, common name
+	// first, repeated OU): the CRL and the certificate carry exactly this encoding
+	var caName gen.NameSpec
+	switch c.IssuerShape {
+	case "dc":
+		caName = gen.NameSpec{{{T: "DC", V: "example", Kind: "ia5"}}, {{T: "DC", V: "corp", Kind: "ia5"}}, {{T: "CN", V: name + " ca"}}}
+	case "email":
+		caName = gen.NameSpec{{{T: "C", V: "DE"}}, {{T: "O", V: "verif"}}, {{T: "CN", V: name + " ca"}}, {{T: "EMAIL", V: "ca@example.org", Kind: "ia5"}}}
+	case "cnfirst":
+		caName = gen.NameSpec{{{T: "CN", V: name + " ca"}}, {{T: "OU", V: "pki"}}, {{T: "O", V: "verif"}}, {{T: "C", V: "DE"}}}
+	case "multiou":
+		caName = gen.NameSpec{{{T: "C", V: "DE"}}, {{T: "OU", V: "a"}}, {{T: "O", V: "verif"}}, {{T: "OU", V: "b"}}, {{T: "CN", V: name + " ca"}}}
+	default:
+		caName = gen.CN(name + " ca")
+	}
 	var root, ca *gen.Cert
 	if c.Depth == 1 {
-		ca = gen.Issue(gen.CertSpec{Key: c.CAKey, Subject: gen.CN(name + " ca"), SerialHex: "1001", IsCA: true}, nil)
+		ca = gen.Issue(gen.CertSpec{Key: c.CAKey, Subject: caName, SerialHex: "1001", IsCA: true}, nil)
 		root = ca
 	} else {
 		rk := "p256a"
@@ -127,15 +144,14 @@ func runCase(c Case, x *ev.Ctx) error {
 			rk = "p256b"
 		}
 		root = gen.Issue(gen.CertSpec{Key: rk, Subject: gen.CN(name + " root"), SerialHex: "1000", IsCA: true}, nil)
-		ca = gen.Issue(gen.CertSpec{Key: c.CAKey, Subject: gen.CN(name + " ca"), SerialHex: "1001", IsCA: true}, root)
+		ca = gen.Issue(gen.CertSpec{Key: c.CAKey, Subject: caName, SerialHex: "1001", IsCA: true}, root)
 	}
 	signer := ca
 	if c.Signer == "sibling" {
-		signer = gen.Issue(gen.CertSpec{Key: c.CAKey, Subject: gen.CN(name + " ca"), SerialHex: "1001", IsCA: true}, nil)
 		if gen.K(c.CAKey).IsRSA() {
-			signer = gen.Issue(gen.CertSpec{Key: "rsa2048d", Subject: gen.CN(name + " ca"), SerialHex: "1001", IsCA: true}, nil)
+			signer = gen.Issue(gen.CertSpec{Key: "rsa2048d", Subject: caName, SerialHex: "1001", IsCA: true}, nil)
 		} else {
-			signer = gen.Issue(gen.CertSpec{Key: "p256e", Subject: gen.CN(name + " ca"), SerialHex: "1001", IsCA: true}, nil)
+			signer = gen.Issue(gen.CertSpec{Key: "p256e", Subject: caName, SerialHex: "1001", IsCA: true}, nil)
 		}
 	}
 	// the list
@@ -237,6 +253,14 @@ func runCase(c Case, x *ev.Ctx) error {
 		files = append(files, crlFile)
 	case "crl_url":
 		crlCfg["crl_urls"] = []string{listURL}
+	case "crl_url-query-twin":
+		// two configured locations on the same host and path that differ only in the query string; the list
+		// that revokes the certificate is the second one
+		decoy := world.NewSimplePKI(name+" decoy", "p256d", "")
+		crlOrigin.Serve("/certdist?cmd=crl&issuer=CA1", decoy.CRL(1, "0101"))
+		crlOrigin.Serve("/certdist?cmd=crl&issuer=CA2", body)
+		crlCfg["crl_urls"] = []string{crlOrigin.URL("/certdist?cmd=crl&issuer=CA1"), crlOrigin.URL("/certdist?cmd=crl&issuer=CA2")}
+		crlCfg["trusted_signature_certs_files"] = append(crlCfg["trusted_signature_certs_files"].([]string), writePEM(dir, "decoy.pem", decoy.Root))
 	}
 	if len(files) > 0 {
 		crlCfg["crl_files"] = files
@@ -279,6 +303,7 @@ func runCase(c Case, x *ev.Ctx) error {
 			c.Listed.SerialHex, c.Pos, c.N, c.Source, c.LeafCDP, map[bool]string{true: "disk", false: "memory"}[c.Disk], c.Mode, c.OCSP, c.Sig, c.Signer, c.PEM, c.V1, c.CAKey, c.Alg)
 	}
 	x.Classf("source=%s", c.Source)
+	x.Classf("issuer-shape=%s", c.IssuerShape)
 	x.Classf("mode=%s", c.Mode)
 	x.Classf("n=%s", nBucket(c.N))
 	x.Classf("serial-bytes=%d", len(c.Listed.SerialHex)/2)
@@ -286,7 +311,7 @@ func runCase(c Case, x *ev.Ctx) error {
 		x.Classf("own-cdp-unusable=%s", c.LeafCDP)
 	}
 	if c.N >= 2 || len(c.Listed.SerialHex) > 16 || c.PEM != "" {
-		x.NonTrivial(fmt.Sprintf("%s|%v|%s|%s|%s|%d|%s|%d|%v|%s|%s", c.Source, c.Disk, c.Mode, c.PEM, nBucket(c.N), posClass(c), c.Listed.SerialHex, len(c.Listed.Exts), c.V1, c.OCSP, c.Sig))
+		x.NonTrivial(fmt.Sprintf("%s|%s|%v|%s|%s|%s|%d|%s|%d|%v|%s|%s", c.IssuerShape, c.Source, c.Disk, c.Mode, c.PEM, nBucket(c.N), posClass(c), c.Listed.SerialHex, len(c.Listed.Exts), c.V1, c.OCSP, c.Sig))
 	}
 	return nil
 }
@@ -324,10 +349,10 @@ func nBucket(n int) string {
 }
 
 var spec = ev.Spec[Case]{
-	ID:  "C01",
-	Gen: genCase,
-	Run: runCase,
-	Rule: "rapid draws a PKI (14 CA keys, depth 1..2), a well-formed CRL accepted under the drawn signature policy (verify: signed by the CA; verify_log/none: also by a same-name sibling), N in {1, 2..10, 60..140 (around the 4 KiB window), 141..600, 601..3000} entries, the listed entry at first/last/middle/random position with a serial of 1..20 bytes (incl. 2^63 / 2^64 edges, high-bit bytes), UTC/Generalized date and entry extensions, v1 or v2, DER / PEM-LF / PEM-CRLF; source in {crl_files, crl_urls, the certificate's CDP, the CDP of another certificate seen before}; for configured sources the certificate's own CDP may be unusable (ldap only, 404, garbage); 0..2 distractor CRLs listing the same serial under other issuers; storage, fetch mode, mode in {unset, prefer_ocsp, prefer_crl, crl_only}, OCSP side in {no AIA, good, unknown, unavailable}. Run through the real module (JSON -> LoadModuleByID -> VerifyClientCertificate). Oracle: the listed certificate is rejected; vacuity guard: an unlisted sibling certificate is accepted first. Non-trivial: N >= 2 or serial > 8 bytes or PEM; distinct by (source, storage, mode, encoding, N bucket, position class, serial, extensions, version, OCSP side, policy).",
+	ID:          "C01",
+	Gen:         genCase,
+	Run:         runCase,
+	Rule:        "rapid draws a PKI (14 CA keys, depth 1..2), a well-formed CRL accepted under the drawn signature policy (verify: signed by the CA; verify_log/none: also by a same-name sibling), N in {1, 2..10, 60..140 (around the 4 KiB window), 141..600, 601..3000} entries, the listed entry at first/last/middle/random position with a serial of 1..20 bytes (incl. 2^63 / 2^64 edges, high-bit bytes), UTC/Generalized date and entry extensions, v1 or v2, DER / PEM-LF / PEM-CRLF; source in {crl_files, crl_urls, the certificate's CDP, the CDP of another certificate seen before}; for configured sources the certificate's own CDP may be unusable (ldap only, 404, garbage); 0..2 distractor CRLs listing the same serial under other issuers; storage, fetch mode, mode in {unset, prefer_ocsp, prefer_crl, crl_only}, OCSP side in {no AIA, good, unknown, unavailable}. Run through the real module (JSON -> LoadModuleByID -> VerifyClientCertificate). Oracle: the listed certificate is rejected; vacuity guard: an unlisted sibling certificate is accepted first. Non-trivial: N >= 2 or serial > 8 bytes or PEM; distinct by (source, storage, mode, encoding, N bucket, position class, serial, extensions, version, OCSP side, policy).",
 	Assumptions: []string{"FNV-64 key collisions are outside the claim"},
 }
 
